@@ -15,5 +15,15 @@ int main(int argc, char** argv) {
   if (c_float(f) < 123456789.124 || c_float(f) > 123456789.126) { printf("REPRODUCED: Float 123456789.125 shown as %s is read back as %f\n", c_str(t), c_float(f)); bad = 1; }
   var n = new(Int, $I(0)); show_to($I(-9007199254740993LL), t, 0); look_from(n, t, 0);
   if (c_int(n) != -9007199254740993LL) { printf("REPRODUCED: Int round trip gives %lld\n", (long long)c_int(n)); bad = 1; }
+  { const char* specs[] = { "%d", "%i", "%hd", "%hhd", "%ld", "%li", "%lld", "%jd" }; int64_t vals[] = { -5, -1, 0, 7, 100, -100 };
+    for (size_t k = 0; k < sizeof(specs) / sizeof(specs[0]); k++) for (size_t j = 0; j < sizeof(vals) / sizeof(vals[0]); j++) {
+      var txt = new(String, $S("")); var y = new(Int, $I(12345)); int w = print_to_with(txt, 0, specs[k], tuple($I(vals[j]))); int r = scan_from_with(txt, 0, specs[k], tuple(y));
+      if (c_int(y) != vals[j] || r != w) { printf("REPRODUCED: print_to \"%s\" of %lld wrote \"%s\" (%d), scan_from with the same specification read %lld (%d)\n", specs[k], (long long)vals[j], c_str(txt), w, (long long)c_int(y), r); bad = 1; }
+    }
+    const char* uspecs[] = { "%u", "%x", "%o", "%lu", "%lx", "%hu" }; int64_t uvals[] = { 0, 7, 255, 65535 };
+    for (size_t k = 0; k < sizeof(uspecs) / sizeof(uspecs[0]); k++) for (size_t j = 0; j < sizeof(uvals) / sizeof(uvals[0]); j++) {
+      var txt = new(String, $S("")); var y = new(Int, $I(12345)); print_to_with(txt, 0, uspecs[k], tuple($I(uvals[j]))); scan_from_with(txt, 0, uspecs[k], tuple(y));
+      if (c_int(y) != uvals[j]) { printf("REPRODUCED: print_to \"%s\" of %lld wrote \"%s\", scan_from read %lld\n", uspecs[k], (long long)uvals[j], c_str(txt), (long long)c_int(y)); bad = 1; }
+    } }
   return bad;
 }
